@@ -5,6 +5,8 @@ package rosmar
 import (
 	"sync"
 	"sync/atomic"
+
+	sqlite3 "github.com/mattn/go-sqlite3"
 )
 
 // Seams for the deterministic-simulation harness (see /verif/DESIGN.md). They exist only when
@@ -24,6 +26,9 @@ var (
 	// VerifFaultHook lets the harness inject an error at a cooperative fault point ("buggify"):
 	// a non-nil result is used as if the operation at that point had failed with it.
 	VerifFaultHook func(name string) error
+	// VerifConnectHook is called for every SQLite connection rosmar opens, before it is used. The
+	// harness installs an authorizer callback there, through which it makes single statements fail.
+	VerifConnectHook func(conn *sqlite3.SQLiteConn) error
 )
 
 func verifLock(m *sync.Mutex, site string) {
@@ -47,6 +52,13 @@ func verifNote(name, detail string, n uint64) {
 func verifFault(name string) error {
 	if h := VerifFaultHook; h != nil {
 		return h(name)
+	}
+	return nil
+}
+
+func verifConnect(conn *sqlite3.SQLiteConn) error {
+	if h := VerifConnectHook; h != nil {
+		return h(conn)
 	}
 	return nil
 }
